@@ -28,6 +28,23 @@ REQUIRED_THEOREMS = [
     "TapkeeVerif.C08.hlle_affine_on_flat_partial",
     "TapkeeVerif.C08.gramSchmidt_orthogonal",
     "TapkeeVerif.C08.ltsa_affine_on_flat_partial",
+    "TapkeeVerif.C08.hlle_writes_eq_expected",
+    "TapkeeVerif.C08.hlle_sources_cover_pairs",
+    "TapkeeVerif.C08.hlle_allPairs_mem",
+    "TapkeeVerif.C08.hlle_allPairs_nodup",
+    "TapkeeVerif.C08.hlle_rightCols_eq",
+    "TapkeeVerif.C08.hlle_tangent_block_eq",
+    "TapkeeVerif.C08.hlleYi0_products",
+    "TapkeeVerif.C08.lle_psd",
+    "TapkeeVerif.C08.ltsa_psd",
+    "TapkeeVerif.C08.hlle_psd",
+    "TapkeeVerif.C08.psd_eigenvalues_ge",
+    "TapkeeVerif.C08.klle_end_to_end",
+    "TapkeeVerif.C08.kltsa_end_to_end",
+    "TapkeeVerif.C08.hlle_end_to_end",
+    "TapkeeVerif.C08.belowCount_sound",
+    "TapkeeVerif.C08.belowCount_bounds_eigenvalues",
+    "TapkeeVerif.C08.bottom_certified",
 ]
 
 
@@ -60,6 +77,8 @@ def make_spec(r, op, method, quick, force=None):
     d = force.get("d") or r.choice([1, 2, 2, 3, 4] if method != "hlle" else [1, 2, 2, 3, 3, 4])
     if kind == "grid":
         D = max(D, 2)
+    if method != "lle" and method != "klle" and "d" not in force:
+        d = min(d, D)       # tangent coordinates beyond the ambient dimension are a degenerate request (skipped anyway)
     Nmax = 40 if quick else 64
     lo = max(min_k(method, d) + 2, 6)
     N = force.get("N") or r.range(lo, max(lo, r.choice([12, 20, Nmax])))
@@ -146,114 +165,34 @@ def what_text(spec, cls, text):
                                                          spec["d"], spec["kern"], spec["kind"], text)
 
 
-def shrink(ctx, binary, spec, cls, sig, budget=24):
-    """drop points while the same verdict class/signature persists"""
-    tests = [0]
-
-    def failing(sub):
-        if tests[0] >= budget or len(sub) < max(5, min_k(spec["method"], spec["d"]) + 2):
-            return False
-        tests[0] += 1
-        s2 = dict(spec)
-        s2["pts"] = sub
-        res, err = _ll.run_pairs(ctx, binary, "model_c08", [build_line(s2)])
-        if not res:
-            return False
-        c2, sig2, _ = classify(*res[0])
-        return c2 == cls and sig2 == sig
-    small = vlib.ddmin(spec["pts"], failing, max_tests=budget)
-    s2 = dict(spec)
-    s2["pts"] = small
-    return s2
-
-
-def judge(ctx, binary, specs):
-    lines = [build_line(s) for s in specs]
-    res, err = _ll.run_pairs(ctx, binary, "model_c08", lines)
-    if res is None:
-        ctx.broken("model-driver", "model_c08", "model driver failed: " + err)
-        return
-    reported = set()
-    for spec, line, (io, v) in zip(specs, lines, res):
-        cls, sig, text = classify(io, v)
-        N = len(spec["pts"])
-        nontrivial = N >= 6
-        ctx.count(line, nontrivial and cls in ("ok", "fail", "broken"))
-        ctx.stat("case:" + label(spec))
-        ctx.stat("verdict:" + cls + ((":" + sig) if cls == "skip" else ""))
-        ctx.stat("kernel:" + spec["kern"])
-        ctx.stat("data:" + spec["kind"])
-        ctx.stat("range:" + ("shuffled-subset-among-decoys" if spec.get("dseed") is not None else "identity"))
-        if spec["op"] == "embed" and "nb" in _ll.fields_of(io) and spec.get("cc") == "1":
-            used = len(_ll.fields_of(io)["nb"].split(";")[0].split(","))
-            if used > min(spec["k"], N - 1):
-                ctx.stat("check_connectivity-raised-k")
-        if spec.get("intr") and "flat" in v:
-            ctx.stat("flat-manifold-clause:" + ("verified-affine" if v["flat"][:1] in ("2", "0") else v["flat"]))
-        ctx.stat("d=%d" % spec["d"])
-        ctx.stat("k:" + ("min" if spec["k"] <= max(3, min_k(spec["method"], spec["d"])) else "N-1" if spec["k"] >= N - 1 else "mid"))
-        if spec["op"] == "embed":
-            ctx.stat("neighbours:" + spec["nm"])
-        _ll.tally(ctx, v)
-        if cls in ("ok", "fail", "broken"):
-            ctx.cov["traces_validated_against_impl"] += 1
-        if cls == "ok":
-            if len(ctx.cov["samples"]) < 6 and (len(ctx.cov["samples"]) < 3 or spec["op"] == "embed"):
-                ctx.sample({"case": _ll.short(line, 300), "verdict": v["_line"]})
-            continue
-        if cls == "skip":
-            continue
-        if os.environ.get("VERIF_DEBUG"):
-            ctx.log("non-ok:", what_text(spec, cls, text)[:400])
-        key = (cls, sig, label(spec))
-        if key in reported:
-            continue
-        reported.add(key)
-        small = shrink(ctx, binary, spec, cls, sig) if cls == "fail" else spec
-        sline = build_line(small)
-        sres, _ = _ll.run_pairs(ctx, binary, "model_c08", [sline])
-        sio, sv = sres[0] if sres else (io, v)
-        detail = {"impl": _ll.short(sio, 2000), "model": sv.get("_line", ""), "stderr": getattr(ctx, "last_abort_stderr", "")[-1500:] if sio.startswith("abort:") else ""}
-        if cls == "fail":
-            ctx.fail(sig, what_text(small, cls, classify(sio, sv)[2] or text), case=sline, detail=detail)
-        else:
-            ctx.broken("corr:%s:%s" % (label(spec), sig), "correspondence c08_ll %s (%s)" % (label(spec), sig),
-                       what_text(spec, cls, text), case=line, detail=detail)
-
-
-def _replay_line(ctx, binary, line):
-    res, err = _ll.run_pairs(ctx, binary, "model_c08", [line])
-    if res is None:
-        ctx.broken("model-driver", "model_c08", "model driver failed: " + err)
-        return
-    io, v = res[0]
-    f = _ll.fields_of(line)
-    spec = {"op": f.get("op"), "method": f.get("method", f.get("op")), "pts": [None] * int(f.get("N", "0")), "k": int(f.get("k", "0")),
-            "d": int(f.get("d", "0")), "kern": "?", "kind": "replay"}
-    cls, sig, text = classify(io, v)
-    print("replay: impl  :", _ll.short(io, 600))
-    print("replay: model :", v["_line"])
-    ctx.count(line, True)
-    ctx.cov["traces_validated_against_impl"] += 1
-    if cls == "fail":
-        ctx.fail(sig, what_text(spec, cls, text), case=line, detail={"impl": _ll.short(io, 2000), "model": v["_line"]})
-    elif cls == "broken":
-        ctx.broken("corr:%s:%s" % (label(spec), sig), "correspondence c08_ll", what_text(spec, cls, text), case=line,
-                   detail={"impl": _ll.short(io, 2000), "model": v["_line"]})
-
-
 def hlle_index_leg(ctx):
-    """the generated recurrence evaluated by the model for every d <= 8 (recorded in the evidence; must be the
-    consecutive range [1+d, 1+d+d(d+1)/2) — the statement of the theorem hlle_cols_bijective, re-checked by running)"""
+    """the generated index arithmetic of hessian_weight_matrix (Gen/HlleIndex.lean, extracted from the SOURCE) evaluated
+    by the model for every d <= 8 and compared with a hand-written expectation: the product columns are the consecutive
+    range [1+d, 1+d+d(d+1)/2) and their source pairs are exactly (a, b), 1 <= a <= b <= d, in loop order; sizes, rightCols
+    argument and the tangent block — the statements of hlle_cols_bijective / hlle_sources_cover_pairs, re-checked by running"""
     lines = ["op=hlleidx N=1 d=%d" % d for d in range(0, 9)]
     rc, out, err = ctx.run_model("model_c08", lines)
-    ctx.extra["hlle_written_columns"] = dict(zip(["d=%d" % d for d in range(0, 9)], out))
+    ctx.extra["hlle_index_leg"] = dict(zip(["d=%d" % d for d in range(0, 9)], out))
     for d, o in zip(range(0, 9), out):
-        want = "res=ok cols=" + ",".join(str(c) for c in range(1 + d, 1 + d + d * (d + 1) // 2)) + " err=none"
+        dp = d * (d + 1) // 2
+        triples = []
+        col = 1 + d
+        for j in range(d):
+            for p in range(d - j):
+                triples.append("%d:%d:%d" % (col, j + 1, j + p + 1))
+                col += 1
+        want = {"res": "ok", "cols": ",".join(str(c) for c in range(1 + d, 1 + d + dp)), "err": "none",
+                "writes": ",".join(triples), "dp": str(dp), "ncols": str(1 + d + dp), "rightcols": str(dp),
+                "tangent": "%d,%d" % (d, d)}
+        got = _ll.fields_of(o)
+        got.setdefault("cols", "")
+        got.setdefault("writes", "")
         ctx.count("hlleidx d=%d" % d, True)
-        if o != want:
-            ctx.broken("hlle-index:d=%d" % d, "generated HLLE index recurrence (Gen/HlleIndex.lean) evaluated at d=%d" % d,
-                       "written product columns for target_dimension=%d are %s, expected %s" % (d, o, want), case=lines[d])
+        bad = [k for k in want if got.get(k, "") != want[k]]
+        if bad:
+            ctx.broken("hlle-index:d=%d" % d, "generated HLLE index arithmetic (Gen/HlleIndex.lean) evaluated at d=%d" % d,
+                       "target_dimension=%d: %s" % (d, "; ".join("%s is %s, expected %s" % (k, got.get(k), want[k]) for k in bad)),
+                       case=lines[d])
 
 
 def replay_case(ctx, replay):
@@ -262,26 +201,7 @@ def replay_case(ctx, replay):
     correspond(ctx)
 
 
-def correspond(ctx):
-    binary, routines_ok, log = _ll.build_with_fallback(ctx, "c08_ll.cpp")
-    t_built = ctx_elapsed(ctx)
-    if not binary:
-        ctx.broken("harness-build", "harness c08_ll.cpp", "harness does not compile against the repository: " + log[-1500:])
-        return
-    if getattr(ctx, "replay", None) and ctx.replay.get("case"):
-        _replay_line(ctx, binary, ctx.replay["case"])
-        return
-    r = ctx.rng
-    quick = ctx.tier == "quick"
-    hlle_index_leg(ctx)
-    # corpus first
-    cdir = os.path.join(vlib.ROOT, "corpus", "C08")
-    if os.path.isdir(cdir):
-        for f in sorted(os.listdir(cdir)):
-            for l in open(os.path.join(cdir, f)):
-                l = l.strip()
-                if l.startswith("op="):
-                    _replay_line(ctx, binary, l)
+def plan_fn(ctx, r, quick):
     plan = []
     reps = 3 if quick else 24
     for _ in range(reps):
@@ -302,15 +222,24 @@ def correspond(ctx):
     for _ in range(4 if quick else 40):
         for m, dd in (("kltsa", 1), ("kltsa", 2), ("hlle", 1), ("hlle", 2)):
             specs.append(make_spec(rr.fork(), "embed", m, quick, force={"kind": "flat%d" % dd, "d": dd, "kern": "linear", "D": rr.choice([dd + 1, dd + 2, 5])}))
-    if not routines_ok:
-        ctx.stat("routine-level-cases-dropped", len([s for s in specs if s["op"] != "embed"]))
-        specs = [s for s in specs if s["op"] == "embed"]
-    batch = 40
-    for i in range(0, len(specs), batch):
-        judge(ctx, binary, specs[i:i + batch])
-        if quick and (ctx_elapsed(ctx) - t_built > 60):
-            ctx.extra["truncated_after_cases"] = i + batch
-            break
+    return specs
+
+
+def stat_fn(ctx, spec, line, io, v):
+    N = len(spec["pts"])
+    if spec.get("intr") and "flat" in v:
+        ctx.stat("flat-manifold-clause:" + ("verified-affine" if v["flat"][:1] in ("2", "0") else v["flat"]))
+    if spec["op"] == "embed" and spec.get("cc") == "1" and "nb" in _ll.fields_of(io):
+        used = len(_ll.fields_of(io)["nb"].split(";")[0].split(","))
+        if used > min(spec["k"], N - 1):
+            ctx.stat("check_connectivity-raised-k")
+
+
+def correspond(ctx):
+    quick = ctx.tier == "quick"
+    _ll.generic_correspond(ctx, "c08_ll.cpp", "model_c08", "C08", plan_fn, build_line, label,
+                           lambda spec, text: what_text(spec, None, text), min_points=lambda s: min_k(s["method"], s["d"]) + 2,
+                           pre_fn=lambda c, b: hlle_index_leg(c), stat_fn=stat_fn)
     ctx.cov["rule"] = ("routine level: linear_/tangent_/hessian_weight_matrix on generated kernels (linear, (1+x.y)^2, Cauchy) over "
                        "6 data families (cloud, swiss roll, integer lattice, helix, flat 2-plane, rotated grid), N<=%d, k from the "
                        "method's minimum to N-1 (true k-NN lists and arbitrary lists), d 1..4, sparse result compared entrywise with "
@@ -319,8 +248,9 @@ def correspond(ctx):
                        "non-trivial = N>=6 and a verdict was reached; distinct by case text" % (40 if quick else 64))
     ctx.assumptions += [
         "external kernels enter as oracle values with per-run contract checks: LDLT solve (residual), local eigensolver (residual, orthonormality, top-d by exact inertia), sqrt(k)",
-        "approx-mode stages are evaluated by the same polymorphic model at K := Fix (2^-192 fixed point) and compared within 2^-30 relative to the largest entry; the inertia counts run in exact integer arithmetic on the matrix rounded to 64 significant bits",
-        "soundness of the inertia count (Jacobi/Sylvester) is the shared spectral lemma, not re-proved here",
+        "approx-mode stages are evaluated by the same polymorphic model at K := Fix (2^-192 fixed point) and compared within 2^-30 relative to the summand magnitude",
+        "inertia counts behind every spectral verdict: the exact rational LDL^T of Model/Cert.lean (Cert.inertiaPos, sound by Proofs/Inertia.inertiaPos_sound; belowCount_sound / belowCount_bounds_eigenvalues in Props) on sigma*B - A rounded to 64 significant bits after a power-of-two congruence scaling; only the per-sample local-eigensolver CONTRACT check for neighbourhoods larger than 12 uses the unproven fast minor count",
+        "HLLE: the oracle matrix is built from a hand-written estimator basis [1 | U | u_a*u_b, a<=b]; the model built from the generated index expressions must agree with it (else the Gen tie is reported broken)",
         "cases whose local spectra are degenerate at the d-boundary (gap < 2^-12) are skipped and counted as skipped",
     ]
 
